@@ -8,6 +8,7 @@ package bucketteer
 // its own short-lived child process (re-exec of this test binary), at most four at a time.
 
 import (
+	"context"
 	"encoding/json"
 	"fmt"
 	"os"
@@ -16,6 +17,7 @@ import (
 	"strings"
 	"sync"
 	"testing"
+	"time"
 
 	"github.com/rpcpool/yellowstone-faithful/indexmeta"
 	"github.com/rpcpool/yellowstone-faithful/zzverif/vh"
@@ -93,6 +95,11 @@ func TestVerif_C05(t *testing.T) {
 	specs := vc05Specs(rng, 2, thorough, nCoq)
 	results := make([]*vc05Result, len(specs))
 	outputs := make([]string, len(specs))
+	hung := make([]bool, len(specs))
+	limit := 2 * time.Minute
+	if thorough {
+		limit = 12 * time.Minute
+	}
 	sem := make(chan struct{}, 4)
 	var wg sync.WaitGroup
 	for i, spec := range specs {
@@ -105,12 +112,17 @@ func TestVerif_C05(t *testing.T) {
 			defer wg.Done()
 			sem <- struct{}{}
 			defer func() { <-sem }()
-			cmd := exec.Command(os.Args[0], "-test.run=^TestVerif_C05_Child$", "-test.count=1", "-test.timeout=20m")
+			ctx, cancel := context.WithTimeout(context.Background(), limit)
+			defer cancel()
+			cmd := exec.CommandContext(ctx, os.Args[0], "-test.run=^TestVerif_C05_Child$", "-test.count=1", "-test.timeout=30m")
 			cmd.Env = append(os.Environ(), vc05ChildEnv+"="+specPath)
 			out, err := cmd.CombinedOutput()
 			outputs[i] = string(out)
 			if err != nil {
 				outputs[i] += "\n" + err.Error()
+			}
+			if ctx.Err() != nil {
+				hung[i] = true
 			}
 			b, err := os.ReadFile(strings.TrimSuffix(specPath, ".spec.json") + ".res.json")
 			if err != nil {
@@ -132,6 +144,10 @@ func TestVerif_C05(t *testing.T) {
 			}
 			if strings.Contains(o, "VERIF-HARNESS-BUG") {
 				t.Fatalf("VERIF-HARNESS-BUG in child %s: %s", spec.Name, o)
+			}
+			if hung[i] {
+				rep.Fail("hang", fmt.Sprintf("the process running one Writer/Reader did not finish within %v (killed)", limit), map[string]interface{}{"spec": spec.Name, "seed": seed, "signatures": len(spec.Sigs)})
+				continue
 			}
 			rep.Fail("child-crash", "the process running one Writer died without a result: "+o, map[string]interface{}{"spec": spec.Name, "seed": seed})
 			continue
